@@ -68,6 +68,7 @@ type Obligation struct {
 	Goal    *Term
 	Guard   *Term
 	NFacts  int
+	Block   int
 	exec    *FnExec
 	Pos     token.Position
 	Clause  string
@@ -140,6 +141,8 @@ type FnExec struct {
 	wfDone    map[string]bool
 	epochCtr  map[int]*Term
 	branchAtoms []*Term
+	factBlock []int
+	reachMemo map[[2]int]bool
 	storePos  token.Pos
 	nLookups  int
 	guardN    map[string]int
@@ -175,6 +178,51 @@ func (e *FnExec) addFact(st *State, f *Term) {
 		return
 	}
 	e.facts = append(e.facts, Imp(st.reach, skolemizeExists(f)))
+	for len(e.factBlock) < len(e.facts)-1 {
+		e.factBlock = append(e.factBlock, -1)
+	}
+	bi := -1
+	if e.curBlock != nil {
+		bi = e.curBlock.Index
+	}
+	e.factBlock = append(e.factBlock, bi)
+}
+
+// canReach: block a is b or an ancestor of b in the CFG with back edges removed.
+func (e *FnExec) canReach(a, b int) bool {
+	if a < 0 || b < 0 || a == b {
+		return true
+	}
+	if e.reachMemo == nil {
+		e.reachMemo = map[[2]int]bool{}
+	}
+	if v, ok := e.reachMemo[[2]int{a, b}]; ok {
+		return v
+	}
+	// DFS backwards from b
+	seen := map[int]bool{}
+	var dfs func(x *ssa.BasicBlock) bool
+	dfs = func(x *ssa.BasicBlock) bool {
+		if x.Index == a {
+			return true
+		}
+		if seen[x.Index] {
+			return false
+		}
+		seen[x.Index] = true
+		for _, p := range x.Preds {
+			if x.Dominates(p) {
+				continue
+			}
+			if dfs(p) {
+				return true
+			}
+		}
+		return false
+	}
+	r := dfs(e.fn.Blocks[b])
+	e.reachMemo[[2]int{a, b}] = r
+	return r
 }
 
 func (e *FnExec) pos(p token.Pos) token.Position {
@@ -207,7 +255,10 @@ func (e *FnExec) assert(st *State, kind string, goal *Term, pos token.Pos, claus
 		if label != "" {
 			name += ":" + label
 		}
-		o := &Obligation{Name: name, Kind: kind, Func: e.key, Goal: g, Guard: st.reach, NFacts: len(e.facts), exec: e, Pos: e.pos(pos), Clause: clause, Inputs: e.inputs}
+		o := &Obligation{Name: name, Kind: kind, Func: e.key, Goal: g, Guard: st.reach, NFacts: len(e.facts), exec: e, Pos: e.pos(pos), Clause: clause, Inputs: e.inputs, Block: -1}
+		if e.curBlock != nil {
+			o.Block = e.curBlock.Index
+		}
 		if g == True {
 			o.Result = "trivial"
 			o.Inputs = nil
